@@ -10,13 +10,16 @@ CHECKER = "lake build KalignModel.Props.C08All && lake env lean KalignModel/Audi
 
 def theorems():
     out = []
-    for f in ("C08.theorems", "C08Opt.theorems"):
+    for f in ("C08.theorems", "C08Opt.theorems", "C08Direct.theorems", "C08DirectSoft.theorems"):
         p = os.path.join(C.LEAN, "KalignModel", "Props", f)
         if os.path.exists(p):
             out += [l.strip() for l in open(p) if l.strip() and not l.startswith("#")]
     p = os.path.join(C.LEAN, "KalignModel", "Props", "C07Soft.theorems")
     if os.path.exists(p):
         out += [l.strip() for l in open(p) if l.strip().startswith("Kalign.C08Soft") or "dyadic" in l]
+    p = os.path.join(C.LEAN, "KalignModel", "Props", "C07SoftGroups.theorems")
+    if os.path.exists(p):
+        out += [l.strip() for l in open(p) if "C08Soft" in l]
     return out
 
 
@@ -34,6 +37,14 @@ def run(ctx):
     # the DP core on identical operands is also compared bit-exactly model vs code (shared with C07)
     ops = C.gen_ops("gen_dp.py", ctx.seed + 1000, 200 if ctx.quick else 2000, outfile=os.path.join(C.scratch(), "dp8.ops"))
     diffs = C.unit_correspondence(ctx, kvh, ops, "dp")
+    # identical copies through the whole pipeline model (Float32 and SoftF32 carriers) against kalign(): all-N / all-X / wildcard-heavy, every type
+    ic = os.path.join(C.CORPUS, "sliceAC_identical.ops")
+    if os.path.exists(ic):
+        il = [l.strip() for l in open(ic) if l.strip()]
+        il = il[ctx.seed % 4::4] if ctx.quick else il
+        diffs += C.correspond(kvh, il, chunks=C.NCPU, timeout=1800)
+        ctx.count("unit_ops_pipeline_identical", len(il))
+        ctx.evaluations += len(il)
     cases = []
     for i in range(70 if ctx.quick else 600):
         kind = rng.choice(["dna", "rna", "protein"])
